@@ -44,6 +44,69 @@ func init() {
 	register(&Family{Name: "wvalue", Gen: genWvalue, Run: runWvalue, Setup: setupAbi})
 	register(&Family{Name: "sigconv", Gen: genSigconv, Run: runSigconv})
 	register(&Family{Name: "vparams", Gen: genVparams, Run: runVparams, Setup: setupAbi})
+	register(&Family{Name: "evmaddr", Gen: genEvmAddr, Run: runEvmAddr, Setup: setupAbi})
+}
+
+// evmaddr: the real EVMAddressFromSignatures on the two initial bridge signatures as ExtendVote produces them (the keyring signs
+// sha256 of the message hash).  Input: key A, key B (equal for an honest validator).  Output got:want:kind:ridA:ridB — the address
+// the keeper derives, the address of key A, "same"/"diff", and the recovery ids that reproduce each key from its signature.
+func genEvmAddr(r *Rng, i int, tier string) []string {
+	a := rndBytes(r, 32)
+	a[0] |= 1
+	a[0] &= 0x7f
+	if r.Chance(1, 5) { // small keys
+		a = make([]byte, 32)
+		a[31] = byte(1 + r.Intn(200))
+	}
+	b := a
+	if r.Chance(1, 6) { // the two signatures come from different keys: no address may be registered
+		b = rndBytes(r, 32)
+		b[0] |= 1
+		b[0] &= 0x7f
+	}
+	return []string{hex.EncodeToString(a), hex.EncodeToString(b)}
+}
+
+func runEvmAddr(t *testing.T, in []string) string {
+	ka, _ := hex.DecodeString(in[0])
+	kb, _ := hex.DecodeString(in[1])
+	sign := func(key []byte, msg string) ([]byte, int) {
+		h := sha256.Sum256([]byte(msg))
+		sk := &secp256k1.PrivKey{Key: key}
+		sig, err := sk.Sign(h[:]) // the SDK key hashes once more
+		if err != nil {
+			return nil, -1
+		}
+		ec, err := ethcrypto.ToECDSA(key)
+		if err != nil {
+			return sig, -1
+		}
+		want := ethcrypto.PubkeyToAddress(ec.PublicKey)
+		hh := sha256.Sum256(h[:])
+		rid := -1
+		for v := byte(0); v < 2; v++ {
+			if pub, err := ethcrypto.SigToPub(hh[:], append(append([]byte{}, sig...), v)); err == nil && ethcrypto.PubkeyToAddress(*pub) == want {
+				rid = int(v)
+			}
+		}
+		return sig, rid
+	}
+	sigA, ridA := sign(ka, "TellorLayer: Initial bridge signature A")
+	sigB, ridB := sign(kb, "TellorLayer: Initial bridge signature B")
+	ec, err := ethcrypto.ToECDSA(ka)
+	if err != nil || sigA == nil || sigB == nil {
+		return "err:key"
+	}
+	want := ethcrypto.PubkeyToAddress(ec.PublicKey)
+	kind := "same"
+	if in[0] != in[1] {
+		kind = "diff"
+	}
+	got := "err"
+	if addr, err := abiK.EVMAddressFromSignatures(abiCtx, sigA, sigB); err == nil {
+		got = hex.EncodeToString(addr.Bytes())
+	}
+	return fmt.Sprintf("%s:%s:%s:%d:%d", got, hex.EncodeToString(want.Bytes()), kind, ridA, ridB)
 }
 
 // vparams: the real SetBridgeValidatorParams on a generated bridge validator set at a generated block time; observed are the stored
